@@ -282,6 +282,8 @@ pub fn read(build_filename: &str) -> anyhow::Result<State> {
     })
     .map_err(|err| anyhow!("load .n2_db: {}", err))?;
 
+    #[cfg(feature = "verif")]
+    crate::verif::note_load(&loader.graph);
     Ok(State {
         graph: loader.graph,
         db,
